@@ -177,8 +177,8 @@ var properties = map[string]*propDef{
 			"liveness: the run must finish (no deadlock/stall) and the virtual idle time must stay within (frames x streamers x 25ms) + consumer sleeps + 5s",
 			"write-path clause of C05: the content persisted at the end equals exactly the writes reported authorized by persisting writers, and no unauthorized or persist-only write is relayed",
 		},
-		RequiredProbes: []string{"frames_received", "completeness_checked", "unauthorized_write_observed", "resubscribe_or_disconnect_during_writes", "slow_consumer", "persisted_equals_authorized", "yield_chan"},
-		Units: []unit{cesiumUnit("cesium-stream", "c20")},
+		RequiredProbes: []string{"wide_frame_written", "auto_indexed_write", "unauthorized_data_only_write", "resubscribed", "streamers_with_overlapping_subscriptions", "frames_received", "completeness_checked", "unauthorized_write_observed", "resubscribe_or_disconnect_during_writes", "slow_consumer", "persisted_equals_authorized", "yield_chan"},
+		Units: []unit{cesiumUnit("cesium-stream", "c20", "c20-seq")},
 	},
 	"C06": {
 		Level: "exploration",
